@@ -30,6 +30,10 @@ KF1_EXP = 0.14
 
 
 def window_body(ctx, case):
+    if case["strategy"] in gens.ADAPTIVE and not gens.jump_ratio_ok(
+            case["y"], bound=2.0 ** 300, smooth=case["kw"].get("adaptive_smooth", 1.0)):
+        ctx.count("excluded_known_KF3")       # gamma would overflow: the strategy raises (known finding KF-3)
+        return
     xs, zs = rfagen.run_rfa(case)
     y = case["y"]
     n = case["n"]
@@ -184,7 +188,15 @@ def witness_kf2():
     return cnt > 3, f"LinearAdaptiveRFA(arange(5),[0,-1e17,0,1,5],n=4,a=4): {cnt} of 4 samples of interval 2 differ"
 
 
-WITNESSES = {"KF-1": witness_kf1, "KF-2": witness_kf2}
+def witness_kf3():
+    try:
+        rfa_mod.LinearAdaptiveRFA(np.arange(3.0), np.array([2.3e-177, 0.0, 1.0]), 2, adaptive_smooth=2.0).rfa()
+    except ValueError as e:
+        return True, f"LinearAdaptiveRFA(arange(3),[2.3e-177,0,1],2,adaptive_smooth=2) raises ValueError: {e}"
+    return False, "no longer raises"
+
+
+WITNESSES = {"KF-1": witness_kf1, "KF-2": witness_kf2, "KF-3": witness_kf3}
 
 
 SUBCHECKS = [
